@@ -44,12 +44,16 @@ import (
 // ---------------------------------------------------------------- in-memory connection
 
 type memConn struct {
-	r    *bytes.Reader
-	w    bytes.Buffer
-	read int
+	r     *bytes.Reader
+	w     bytes.Buffer
+	read  int
+	chunk int // > 0: a Read delivers at most this many bytes (TCP segmentation)
 }
 
 func (c *memConn) Read(b []byte) (int, error) {
+	if c.chunk > 0 && len(b) > c.chunk {
+		b = b[:c.chunk]
+	}
 	n, err := c.r.Read(b)
 	c.read += n
 	return n, err
@@ -190,7 +194,11 @@ func classify(err error, consumed int, declared int64) string {
 }
 
 func realRead(st string, magic uint32, stream []byte) readResult {
-	c := &memConn{r: bytes.NewReader(stream)}
+	return realReadChunked(st, magic, stream, 0)
+}
+
+func realReadChunked(st string, magic uint32, stream []byte, chunk int) readResult {
+	c := &memConn{r: bytes.NewReader(stream), chunk: chunk}
 	create := stackCreate(st)
 	var m0, m1 runtime.MemStats
 	runtime.ReadMemStats(&m0)
@@ -268,6 +276,8 @@ func exec(t []string) string {
 	switch t[0] {
 	case "read": // read <stack> <magic> <dflag> <stream>
 		return fmtRead(realRead(t[1], u32(t[2]), hx.UnHex(t[4])))
+	case "readc": // readc <stack> <magic> <dflag> <chunk> <stream>: the same stream, delivered at most <chunk> bytes per Read
+		return fmtRead(realReadChunked(t[1], u32(t[2]), hx.UnHex(t[5]), atoi(t[4])))
 	case "corrupt": // corrupt <stack> <magic> <dflag> <frame> <pos> <newbyte>
 		s := append([]byte(nil), hx.UnHex(t[4])...)
 		p := atoi(t[5])
@@ -337,6 +347,21 @@ func exec(t []string) string {
 			return "err"
 		}
 		return hx.Hex(b)
+	case "rtx": // rtx <stack> <magic> <cmd> <seed> <idx> <payload>: one of the largest messages Serialize agrees to produce, rebuilt from the seed
+		seed, err := strconv.ParseUint(t[4], 10, 64)
+		if err != nil {
+			panic("harness: bad seed")
+		}
+		list := extremes(hx.NewRand(seed))[t[3]]
+		idx := atoi(t[5])
+		if idx >= len(list) {
+			panic("harness: rtx index")
+		}
+		p, err := serialize(list[idx])
+		if err != nil || !bytes.Equal(p, hx.UnHex(t[6])) {
+			return "payload-mismatch"
+		}
+		return roundTrip(t[1], u32(t[2]), t[3], list[idx], p)
 	case "rtc": // rtc <stack> <magic> <cmd> <seed> <payload>: a well-formed message built from the seed (no decoder involved), written and read back
 		seed, err := strconv.ParseUint(t[4], 10, 64)
 		if err != nil {
@@ -722,10 +747,21 @@ func judgeRead(st string, magic uint32, stream []byte, r readResult) *hx.Violati
 }
 
 func oracle(t []string, out string) *hx.Violation {
-	if out == "panic" && (t[0] == "read" || t[0] == "corrupt" || t[0] == "rt" || t[0] == "mrt" || t[0] == "rtc" || t[0] == "hdr") {
+	if out == "panic" && (t[0] == "read" || t[0] == "readc" || t[0] == "rtx" || t[0] == "corrupt" || t[0] == "rt" || t[0] == "mrt" || t[0] == "rtc" || t[0] == "hdr") {
 		return &hx.Violation{Kind: "panic", Detail: "framing code panicked on bytes from the wire: " + hx.LastPanic()}
 	}
 	switch t[0] {
+	case "readc":
+		got := lastRead
+		if v := judgeRead(t[1], u32(t[2]), hx.UnHex(t[5]), got); v != nil {
+			return v
+		}
+		whole := realRead(t[1], u32(t[2]), hx.UnHex(t[5]))
+		if whole.kind != got.kind || whole.cmd != got.cmd || whole.consumed != got.consumed {
+			return &hx.Violation{Kind: "segmentation-dependent", Detail: fmt.Sprintf("the stream read whole gives '%s %s %d', delivered in pieces of at most %s bytes it gives '%s %s %d': a well-formed frame is refused (or a malformed one treated differently) depending on how TCP segments it",
+				whole.kind, whole.cmd, whole.consumed, t[4], got.kind, got.cmd, got.consumed)}
+		}
+		return nil
 	case "read":
 		return judgeRead(t[1], u32(t[2]), hx.UnHex(t[4]), lastRead)
 	case "corrupt":
@@ -751,7 +787,7 @@ func oracle(t []string, out string) *hx.Violation {
 			return nil
 		}
 		return &hx.Violation{Kind: "corruption-accepted", Detail: fmt.Sprintf("byte %d of a valid %s frame changed from %02x to %02x and the read still succeeds as %s", p, orig.cmd, frame[p], nb, r.cmd)}
-	case "rt", "mrt", "rtc":
+	case "rt", "mrt", "rtc", "rtx":
 		if strings.HasPrefix(out, "werr") || out == "payload-mismatch" {
 			return nil
 		}
@@ -811,6 +847,8 @@ func nontrivial(t []string, out string) bool {
 	switch t[0] {
 	case "read", "corrupt":
 		return len(t[4]) >= 48
+	case "readc":
+		return len(t[5]) >= 48
 	}
 	return true
 }
@@ -818,7 +856,7 @@ func nontrivial(t []string, out string) bool {
 func bucket(t []string, out string) string {
 	f := strings.Fields(out)
 	switch t[0] {
-	case "read", "corrupt":
+	case "read", "corrupt", "readc":
 		k := t[0] + "/" + t[1] + "/"
 		if len(f) >= 2 && f[0] == "err" {
 			return k + f[1]
@@ -833,6 +871,10 @@ func bucket(t []string, out string) string {
 	case "mrt":
 		if len(f) >= 1 {
 			return "mrt/mode" + t[5] + "/" + f[0]
+		}
+	case "rtx":
+		if len(f) >= 1 {
+			return "rtx/" + t[3] + "/" + f[0]
 		}
 	case "rtc":
 		if len(f) >= 1 {
@@ -1549,11 +1591,26 @@ func gen(g *hx.Gen) {
 		}
 	}
 
-	ext := extremes(r)
+	extSeed := r.U64() >> 1
+	ext := extremes(hx.NewRand(extSeed))
 	for _, cmd := range sortedCmds("elanet") {
-		for _, m := range ext[cmd] {
+		for i, m := range ext[cmd] {
 			if p, err := serialize(m); err == nil {
-				g.Emit("rt elanet %d %s %s", magics[0], cmd, hx.Hex(p))
+				g.Emit("rtx elanet %d %s %d %d %s", magics[0], cmd, extSeed, i, hx.Hex(p))
+			}
+		}
+	}
+
+	// the same streams delivered in pieces (TCP segmentation): valid frames of every command, with following bytes
+	for _, st := range stacks {
+		for _, cmd := range sortedCmds(st) {
+			p := randPayload(r, st, cmd)
+			fr := frame(magics[1], cmd, p)
+			if r.Bool() {
+				fr = append(fr, r.Bytes(r.Intn(30))...)
+			}
+			for _, ch := range []int{1, r.Pick(2, 3, 7), r.Pick(23, 24, 25, 100)} {
+				g.Emit("readc %s %d %d %d %s", st, magics[1], dflag(st, magics[1], fr), ch, hx.Hex(fr))
 			}
 		}
 	}
